@@ -30,6 +30,7 @@ prop(
         '.value, non-finite float -> None under an isinstance(float) guard, everything else unchanged; the closure of '
         'field types reachable from HplSpecification is JSON-native after that mapping. Not decided: argparse usage '
         'errors/--version exits, wording of diagnostics, attrs.asdict itself (trusted).'
+        " C1 also fixes the status of every handler to exactly 1. C3 also requires that the JSON document is printed only on paths that established `output == 'json'`, that an option setting args['output'] with that choice exists, and checks the serializer as a truth table over (is a float, is infinite, is NaN): null exactly for the two non-finite cases."
     ),
     assumptions=['attrs.asdict recurses into attrs instances, tuples and dicts and applies value_serializer to every leaf', 'json.dumps of str/int/finite float/bool/None/list/dict is strictly valid JSON'],
 )
@@ -115,6 +116,7 @@ prop(
         'quantifier hygiene errors. A6: scope/pattern presence validators. M3/M6: but() goes through evolve so every copy '
         're-runs the check. S3/S8: own alias discarded, disjunction references are the plain union. Not decided: membership '
         'arithmetic inside the three-line loops beyond polarity/operands.'
+        ' D1 also requires that the duplicate-channel scan of a disjunction records every name it has seen and that its loop starts (a negated loop condition or a dropped `names.add` finds no repetition). A6 also checks the time-bound validator of a pattern: max_time rejected exactly when below min_time.'
     ),
 )
 
@@ -157,6 +159,7 @@ prop(
         'over all occurrences; N3 overload acceptance rejects too few arguments unconditionally, too many unless variadic, '
         'and tests every argument with can_be; A3u both sides of =/!= are unified and stored back; F1 the parser callbacks build every '
         'node through its constructor with the operator taken from the lexeme (no folding that bypasses the operand check). Not decided: value-level behaviour of the inference on every term.'
+        ' N3 also requires that every accepting path of a variadic overload with extra arguments has the can_be(variadic) test on its way.'
     ),
 )
 
@@ -211,6 +214,7 @@ prop(
         'other functions, non-integer bounds, the helper contracts themselves, values outside the model (NaN, infinities, '
         'float rounding).'
         " V1: HplVacuousTruth / HplContradiction report is_vacuous, is_true and their literal condition (token and value) correctly - simplify's re-wrapping, join and split_and read these constants."
+        " R7 enumerates the operator of the input when a path leaves it open (every token the function is dispatched for that the path's tests allow): a negated `if op.is_less_than` is then checked against !=, <=, >, >= instead of being left undecided. R10 also compares the Python function a scalar fold calls with the reference (abs, math.sqrt, ..., math.atan2 with the arguments in order, math.log10 only under base == 10)."
     ),
 )
 
